@@ -35,11 +35,21 @@ func c20Run(maxBatches int, consumerSteps int, allowClose bool) {
 		r.ReassemblyComplete()
 		asmDone = true
 	}()
+	// optionally let the assembler run until it waits for the consumer, so
+	// that "Close/Read while the assembler is already delivering" is a
+	// state the native replay reaches too
+	settle := verifChoose(2) == 1
+	if settle {
+		verifSettle()
+	}
 	var got []byte
 	eof, closed := false, false
 	losses := 0
 	for step := 0; step < consumerSteps+16 && !eof && !closed; step++ {
 		if allowClose && step < consumerSteps && verifChoose(2) == 1 {
+			if settle {
+				verifSettle()
+			}
 			verifAssert(r.Close() == nil, "Close returns nil")
 			closed = true
 			break
